@@ -191,6 +191,7 @@ var specC20 = vstat.Spec[srvCase]{
 	Assumptions: []string{"time-based settle (30/80 ms) after every operation: a late relay action could only hide a violation of a safety clause; stream-termination clauses are evaluated after a final settle"},
 	Gen:         genC20,
 	Check:       checkC20,
+	Inflight:    true,
 }
 
 func TestC20(t *testing.T)       { vstat.Check(t, specC20) }
@@ -373,6 +374,7 @@ var specC22 = vstat.Spec[srvCase]{
 	Assumptions: []string{"the schedule is owned through the harness stream's blocking Send, no source hook", "eventual clauses are waited for up to 3 s"},
 	Gen:         genC22,
 	Check:       checkC22,
+	Inflight:    true,
 }
 
 func TestC22(t *testing.T)       { vstat.Check(t, specC22) }
